@@ -49,8 +49,13 @@ Plain == {[cmd |-> c, src |-> "files", ins |-> f] : c \in Cmds \ {"parse"}, f \i
          \cup {[cmd |-> c, src |-> s, ins |-> f] : c \in TreeCmds, s \in TreeSources \ {"glob"}, f \in FileSets}
          \cup {[cmd |-> c, src |-> "glob", ins |-> f] :
                   c \in {"validate", "validate-quiet", "validate-json", "validate-sarif"}, f \in FileSets}
-Cases == {[cmd |-> c.cmd, src |-> c.src, ins |-> c.ins, pres |-> ""] : c \in Plain}
-         \cup {[cmd |-> "parse", src |-> s, ins |-> <<a>>, pres |-> p] : s \in Sources, a \in Classes, p \in Presentations}
+\* where the process keeps temporary files (TMPDIR): on another file system than the inputs, or nowhere (the directory
+\* does not exist).  The commands that rewrite files must not depend on it: the temporary file of a rewrite lives next
+\* to its target
+Environments == {"tmpdir-elsewhere", "tmpdir-missing"}
+Cases == {[cmd |-> c.cmd, src |-> c.src, ins |-> c.ins, pres |-> "", env |-> ""] : c \in Plain}
+         \cup {[cmd |-> "parse", src |-> s, ins |-> <<a>>, pres |-> p, env |-> ""] : s \in Sources, a \in Classes, p \in Presentations}
+         \cup {[cmd |-> c, src |-> "files", ins |-> f, pres |-> "", env |-> e] : c \in {"format-inplace", "lint-fix", "format-output"}, f \in FileSets, e \in Environments}
 
 VARIABLES case, verdict, done
 vars == <<case, verdict, done>>
@@ -103,16 +108,19 @@ OnlyOnSuccess == \A i \in verdict.may : Accepted(case.ins[i])
 \* --check passes exactly on the files that -i would leave alone
 PrintWriteCheckConsistent ==
     \A f \in FileSets :
-        LET chk == Verdict([cmd |-> "format-check", src |-> "files", ins |-> f, pres |-> ""])
-            inp == Verdict([cmd |-> "format-inplace", src |-> "files", ins |-> f, pres |-> ""])
+        LET chk == Verdict([cmd |-> "format-check", src |-> "files", ins |-> f, pres |-> "", env |-> ""])
+            inp == Verdict([cmd |-> "format-inplace", src |-> "files", ins |-> f, pres |-> "", env |-> ""])
         IN (chk.exit = 0) <=> (inp.exit = 0 /\ inp.must = {})
 \* how the inputs reach the command does not matter: a directory tree or a glob gives the verdict of the same files
 \* named one by one
 SourceIndependent ==
     (case.src \in TreeSources) =>
-        LET asFiles == Verdict([cmd |-> case.cmd, src |-> "files", ins |-> case.ins, pres |-> ""])
+        LET asFiles == Verdict([cmd |-> case.cmd, src |-> "files", ins |-> case.ins, pres |-> "", env |-> ""])
         IN verdict.exit = asFiles.exit /\ verdict.reported = asFiles.reported
 PresentationIndependent ==
-    verdict.exit = Verdict([cmd |-> case.cmd, src |-> case.src, ins |-> case.ins, pres |-> ""]).exit
+    verdict.exit = Verdict([cmd |-> case.cmd, src |-> case.src, ins |-> case.ins, pres |-> "", env |-> ""]).exit
+EnvironmentIndependent ==
+    LET plain == Verdict([cmd |-> case.cmd, src |-> case.src, ins |-> case.ins, pres |-> case.pres, env |-> ""])
+    IN verdict.exit = plain.exit /\ verdict.must = plain.must /\ verdict.may = plain.may
 ReportNamesExactlyFailures == verdict.reported \subseteq Idx(case.ins, Rejected)
 =============================================================================
